@@ -27,7 +27,7 @@ import os
 
 from lib.core import REPO
 
-from .pyast import TranslateError, find_class, find_func, parse, src
+from .pyast import TranslateError, find_class, find_func, normalise, parse, src
 
 OUTPUTS = ["RngGen"]
 SNAPSHOT = "torchsnapshot/snapshot.py"
@@ -371,7 +371,7 @@ def package_index():
         rel = os.path.relpath(path, root)
         if rel == "test_utils.py" or rel.split(os.sep)[0] in ("tests", "test"):
             continue
-        tree = ast.parse(open(path).read(), filename=path)
+        tree = normalise(ast.parse(open(path).read(), filename=path))
 
         def visit(node, prefix):
             for n in ast.iter_child_nodes(node):
